@@ -1,5 +1,6 @@
 """C10 -- backward is the exact inverse of forward."""
 from vlib import gen
+from vlib import impl_np as NP
 from vlib.run import do, impl, mgate, mprog, corr
 from vlib.core import Err
 from props.C09 import run_impl, rprog
@@ -48,7 +49,42 @@ def c_maps_corr(ctx, args):
     return None
 
 
-CHECKS = {'roundtrip': c_roundtrip, 'backward_corr': c_backward_corr, 'maps_corr': c_maps_corr}
+def c_torch_history(ctx, args):
+    """torchclifford circuits: one program object (gate / layers / compiled circuit) used for a HISTORY of forward and backward applications, each on a fresh operand;
+    oracle = pyclifford applying the same gates one at a time (tied to the model by the other checks), and F.B / B.F restore the operand"""
+    N, prog, l, mode, hist = args          # mode 0 uncompiled, 1 layers compiled, 2 circuit compiled; hist e.g. 'BF', 'FBBF'
+    import vlib.impl_torch as TT
+    # a torch circuit has no register size of its own: it is as wide as its highest qubit; operands are cut to that width
+    N = 1 + max(max(ins[1][0]) for ins in prog)
+    l = [[g[:2 * N], p] for g, p in l]
+    try:
+        c = TT.build_circuit(N, prog)
+        if mode == 1:
+            for layer in c.layers_forward():
+                layer.compile(N)
+        elif mode == 2:
+            c.compile()
+    except Exception as e:
+        return {'kind': 'oracle', 'where': 'torch:building/compiling the circuit raised %s' % type(e).__name__, 'observed': str(e)[:120], 'expected': 'a circuit', 'tags': ['torch']}
+    for step, d in enumerate(hist):
+        o = TT.PL(l)
+        ref = NP.PL(l)
+        try:
+            (c.forward if d == 'F' else c.backward)(o)
+            got = TT.oPL(o)
+        except Exception as e:
+            return {'kind': 'oracle', 'where': 'torch:circuit %s raised %s' % (d, type(e).__name__), 'observed': str(e)[:120], 'expected': 'rows', 'history': hist[:step + 1], 'tags': ['torch']}
+        gates = [NP.mk_gate(ins[1]) for ins in prog]
+        for g in (gates if d == 'F' else reversed(gates)):
+            (g.forward if d == 'F' else g.backward)(ref)
+        want = NP.oPL(ref)
+        if got != want:
+            return {'kind': 'oracle', 'where': 'torch:circuit %s at step %d of history %s (mode %d) differs from pyclifford gate by gate' % (d, step, hist, mode),
+                    'observed': got, 'expected': want, 'tags': ['torch', 'history']}
+    return None
+
+
+CHECKS = {'torch_history': c_torch_history, 'roundtrip': c_roundtrip, 'backward_corr': c_backward_corr, 'maps_corr': c_maps_corr}
 
 
 def run(ctx):
@@ -75,3 +111,8 @@ def run(ctx):
         if it % 3 == 0:
             do(ctx, 'maps_corr', [N, prog], nontrivial=('m', it))
         ctx.res.count('mode%d_%s_%s' % (mode, cls, d))
+    # the torch port: histories of forward / backward on ONE program object (lazily inverted maps must land in the right slot)
+    for it in range(int(70 * B)):
+        N = rng.randint(1, 4)
+        prog = [[0, gen.rgate(rng, ctx.model, N, kinds=('gen', 'fwd', 'fwd', 'bwd', 'both', 'named'))] for _ in range(rng.randint(1, 5))]
+        do(ctx, 'torch_history', [N, prog, gen.rplist(rng, N, 3), rng.choice([0, 0, 1, 2]), rng.choice(['F', 'B', 'FB', 'BF', 'BBF', 'FBBF', 'BFFB'])], nontrivial=('th', it))
